@@ -221,6 +221,14 @@ func (s *State) goStmt(x *ssa.Go) {
 	s.c.assumed["go statement at "+s.c.eng.posOf(x)+": goroutine body verified separately; spawner continues as if it had not yet run"] = true
 }
 
+// joinedGo: the enclosing function joins its goroutines with a WaitGroup; under the disjointness obligations of
+// C08 (no two of them, nor the spawner before Wait, touch the same location) running each one at its spawn
+// point is equivalent to every interleaving, so the go statement is executed as a call.
+func (s *State) joinedGo(x *ssa.Go) bool {
+	fn := x.Parent()
+	return s.c.eng.hasWait[fn]
+}
+
 func (s *State) lockCheck(instr ssa.Instruction, a *Addr) {}
 
 func (s *State) heldTerm() string { return s.held }
